@@ -14,6 +14,7 @@ import ast
 from typing import Dict, List, Optional, Set
 
 from ..index import AnalysisError, call_name, norm, norm1
+from ..sem import Sem
 from .common import (Frag, calls, const_of, enclosing, enclosing_all, eq_const, fctx, if_chain, imag_unit_sign, in_body, is_name, kwarg,
                      method_calls, pmatch, product_factors, stmts, store_targets)
 
@@ -225,8 +226,10 @@ def run(ctx) -> None:
     rets = [s_ for s_ in stmts(dv.node) if isinstance(s_, ast.Return) and s_.value is not None]
     okd = False
     if len(rets) == 1:
-        sg, fs = product_factors(rets[0].value)
-        okd = imag_unit_sign(rets[0].value) == +1 and any(pmatch(f_, f"{dxp}.reshape(ANY)") and pmatch(f_, f"{dxp}.reshape(ANY)")[0][0] is f_ for f_ in fs) and \
+        DS = Sem(idx, dv)
+        rres = DS.resolve(rets[0].value, DS.cfg.node(rets[0]))
+        sg, fs = product_factors(rres)
+        okd = imag_unit_sign(rres) == +1 and any(pmatch(f_, f"{dxp}.reshape(ANY)") and pmatch(f_, f"{dxp}.reshape(ANY)")[0][0] is f_ for f_ in fs) and \
             any(pmatch(f_, "self.cRvec_shifted.reshape(ANY)") and pmatch(f_, "self.cRvec_shifted.reshape(ANY)")[0][0] is f_ for f_ in fs) and len(fs) == 3
     r4.check(okd, "∂/∂k ↦ multiplication by +i (R + τj − τi)", dv, rets[0] if rets else dv.node,
              "the k-derivative is no longer multiplication of X(R) by +i·(R + τj − τi) (the sign must match exp(+ik·R))", stmt="derivative")
